@@ -220,6 +220,9 @@ def run_scenario(scenario, chooser=None, config_kwargs=None, max_steps=100000,
         if cancel_at is not None:
             def canceller():
                 sched.block_until(lambda: (sched.step >= cancel_at and bool(env.futures)) or user_t.finished, 'cancel point')
+                # urgent only to be injected at the chosen point; from here on the canceller
+                # is scheduled like any other thread (it can be preempted inside cancel())
+                sched.me().urgent = False
                 I.log('inject_cancel', how=cancel_how, at=sched.step)
                 if cancel_how == 'future':
                     for f in list(env.futures.values())[:1]:
